@@ -19,7 +19,8 @@ Public API
   HangDetected(BaseException)            raised by guarded sequence items that consume 0 octets of a non-empty buffer
                                          (the real Sequence.from_bytes would loop forever; the model says OutOfFuel)
   pyname, to_py, from_py, env_to_py, env_from_py
-  big_to_ints, ast_to_ints, val_to_ints, env_to_ints, ints_to_val, ints_to_big, enc_line, dec_line   (wire format)
+  big_to_ints, ast_to_ints, val_to_ints, env_to_ints, ints_to_val, ints_to_big, enc_line, dec_line, wf_line   (wire format;
+                                         wf_line asks the model's executable well-formedness predicate wfb)
   run_encode(fields, env_pairs) -> list[int],  run_decode(chk, fields, data) -> list[int]
                                          observation of the real codec in the shape of w_c16_enc / w_c16_dec
   flen, fpres                            accessors
@@ -60,21 +61,20 @@ def fpres(f):
 
 # ------------------------------------------------------------------ building real codec objects
 
-_GUARD = {}
+_GUARD = {}     # codec module -> its guarded Envelope subclass
 
 
 def _guard_class(codec):
-    cls = _GUARD.get(id(codec))
-    if cls is None or cls[0] is not codec:
+    cls = _GUARD.get(codec)
+    if cls is None:
         class GuardedItem(codec.Envelope):
             def _from_bytes(self, vals, data, offset=0):
                 used = super()._from_bytes(vals, data, offset)
                 if used == 0 and len(data) > 0:
                     raise HangDetected("sequence item consumed 0 of %d octets" % len(data))
                 return used
-        cls = (codec, GuardedItem)
-        _GUARD[id(codec)] = cls
-    return cls[1]
+        _GUARD[codec] = cls = GuardedItem
+    return cls
 
 
 def _fix(l):
@@ -319,6 +319,10 @@ def ints_to_val(ints, pos):
 
 def enc_line(fields, env_pairs):
     return "w_c16_enc " + " ".join(map(str, ast_to_ints(fields) + env_to_ints(env_pairs)))
+
+
+def wf_line(fields):
+    return "w_c16_wf " + " ".join(map(str, ast_to_ints(fields)))
 
 
 def dec_line(chk, fields, data):
